@@ -23,7 +23,7 @@ def spec_counts(words, width):
     return ((w // sh) % 1024).reshape(len(words), width, 5).astype(np.int64)
 
 
-def check_pass(ctx, fmt, n, seed, drv, top="random"):
+def check_pass(ctx, fmt, n, seed, drv, top="random", uniform=None):
     f = filegen.FMT[fmt]
     fam = f["family"]
     rng = random.Random(repr((seed, fmt, n)))
@@ -33,13 +33,15 @@ def check_pass(ctx, fmt, n, seed, drv, top="random"):
         pb.top_bits = nprng.integers(0, 4, size=pb.top_bits.shape, dtype=np.uint32)
     elif top == "ones":
         pb.top_bits[:] = 3
-    payload = {"fmt": fmt, "n": n, "seed": seed, "top": top}
+    payload = {"fmt": fmt, "n": n, "seed": seed, "top": top, "uniform": uniform}
     words = filegen.pack_words(pb.samples, f["words"], pb.top_bits)
     if fam == "klm":
         sw = nprng.integers(0, 4, size=n)
         if n >= 8:
             sw[:3] = [0, 1, 2]
             sw[3] = 3
+        if uniform is not None:
+            sw[:] = uniform       # every line of the pass carries the same select value (a short pass cut inside a transition ...)
         other = nprng.integers(0, 1 << 14, size=n) << 2
         pb.bitfield = (other | sw).astype(np.uint16)
         prt = nprng.integers(0, 1024, size=(n, 3))
@@ -168,6 +170,10 @@ def run(ctx):
     for k, (fmt, n, top) in enumerate(plan):
         check_pass(ctx, fmt, n, ctx.seed * 1000 + k, drv, top)
         flush(ctx, drv)
+    # passes of 1, 2 and 5 lines whose lines ALL carry the same channel-select value, every value 0..3
+    for j, (fmt, n, u) in enumerate([(f_, n_, u_) for f_ in ("klmGac", "klmLac") for n_ in (1, 2, 5) for u_ in (0, 1, 2, 3)]):
+        check_pass(ctx, fmt, n, ctx.seed * 1000 + 500 + j, drv, "random", uniform=u)
+        flush(ctx, drv)
     ctx.assumptions += ["float64 means of <= 50 integers below 65536 are exact to 1e-9"]
 
 
@@ -179,7 +185,7 @@ def replay(ctx, path):
         print("replay file carries no input: %s" % body.get("broken_theorems_or_obligations"))
         return 1
     ctx.driver_ok = False
-    check_pass(ctx, inp["fmt"], inp["n"], inp["seed"], [], inp.get("top", "random"))
+    check_pass(ctx, inp["fmt"], inp["n"], inp["seed"], [], inp.get("top", "random"), uniform=inp.get("uniform"))
     if ctx.input_violations:
         print("REPRODUCED: " + ctx.input_violations[0]["what"])
         return 1
